@@ -282,6 +282,14 @@ func (s *Sched) spawn(f func(), sys bool) {
 // SpawnPoints makes every spawn a scheduling point of the spawning thread.
 var SpawnPoints bool
 
+// UnlockPoints puts a scheduling point right after every Unlock/RUnlock: the code that follows a critical
+// section can then be overtaken by another thread's critical section - which is what happens to a value that
+// was taken out of the section by reference and is used after it. Switching away at such a point counts as a
+// preemption. Set by a scenario's main (like SpawnPoints); off by default.
+var UnlockPoints bool
+
+const postUnlock = "post-unlock"
+
 // Go starts a managed system thread (used by instrumented code for `go`).
 func Go(f func()) { S.spawn(f, true) }
 
@@ -427,10 +435,20 @@ func Cur() *Thread { return S.cur }
 // SpawnCount returns how many threads have been spawned so far.
 func SpawnCount() int { return S.spawned }
 
-func Lock(p uintptr)    { S.do(&op{k: KLock, obj: p}) }
-func Unlock(p uintptr)  { S.do(&op{k: KUnlock, obj: p}) }
-func RLock(p uintptr)   { S.do(&op{k: KRLock, obj: p}) }
-func RUnlock(p uintptr) { S.do(&op{k: KRUnlock, obj: p}) }
+func Lock(p uintptr) { S.do(&op{k: KLock, obj: p}) }
+func Unlock(p uintptr) {
+	S.do(&op{k: KUnlock, obj: p})
+	if UnlockPoints {
+		S.do(&op{k: KYield, tag: postUnlock})
+	}
+}
+func RLock(p uintptr) { S.do(&op{k: KRLock, obj: p}) }
+func RUnlock(p uintptr) {
+	S.do(&op{k: KRUnlock, obj: p})
+	if UnlockPoints {
+		S.do(&op{k: KYield, tag: postUnlock})
+	}
+}
 func WGAdd(p uintptr, d int) {
 	S.do(&op{k: KWGAdd, obj: p, n: d})
 }
@@ -1223,7 +1241,7 @@ loop:
 				break loop
 			}
 		}
-		free := !runEn || running.pend == nil || running.pend.k == KYield || running.pend.k == KEnvYield
+		free := !runEn || running.pend == nil || (running.pend.k == KYield && running.pend.tag != postUnlock) || running.pend.k == KEnvYield
 		p := Point{NEnabled: len(all), Chosen: idx, RunN: runN, Free: free}
 		res.Points = append(res.Points, p)
 		tr := all[idx]
